@@ -298,8 +298,9 @@ def _char_specs(draw):
     role_, s0, s1, en = draw(st.sampled_from(subs))
     g = dna.geometry(dna.enzyme_by_name(en))
     style, up, down = draw(_overhangs((s0, s1), [(a, b) for r, a, b, e2 in subs if len(a) == g.k]))
-    return {"kind": "characterize", "base": "user", "enzyme": ename, "subs": subs, "rec_enzyme": en,
+    spec = {"kind": "characterize", "base": "user", "enzyme": ename, "subs": subs, "rec_enzyme": en,
             "role": draw(st.sampled_from([role_, role_, "M", "V"])), "rec": draw(_rec(g, up, down))}
+    return spec
 
 
 def strategies(tier):
